@@ -18,6 +18,8 @@ mod c01;
 mod c14;
 mod cli;
 mod c01cli;
+mod c16;
+mod c18;
 
 use std::path::PathBuf;
 
@@ -58,6 +60,8 @@ fn main() {
     "c01" => c01::run(&o),
     "c14" => c14::run(&o),
     "c01cli" => c01cli::run(&o),
+    "c16" => c16::run(&o),
+    "c18" => c18::run(&o),
     "c05" => c05::run_stream(&o, "c05"),
     "c04" => c05::run_stream(&o, "c04"),
     s => { eprintln!("unknown stream {s}"); std::process::exit(2); }
